@@ -63,7 +63,17 @@ def run(ctx):
     try:
         nhist = ctx.n(40, 400)
         keyreqs, keymeta = [], []
-        for h in range(nhist):
+        # scripted histories after the random ones: every ordered pair of different choice tables (same locations, same or
+        # different discriminator values, different types) for the same files / codec / numeric_enums over one cache
+        import itertools
+        scripts = [None] * nhist
+        for codec_ in ('ber', 'der'):
+            for numeric_ in (False, True):
+                for a_, b_ in itertools.permutations(range(5), 2):
+                    scripts.append([(a_, codec_, numeric_), (b_, codec_, numeric_), (a_, codec_, numeric_)])
+        if ctx.quick():
+            scripts = scripts[:nhist] + rng.sample(scripts[nhist:], 24)
+        for h, script in enumerate(scripts):
             cache_dir = os.path.join(base, 'cache%d' % h)
             # pool of module texts
             g = Gen(rng, Opts(max_depth=2, kinds=['bool', 'int', 'enum', 'octs', 'seq', 'choice', 'seqof', 'enum']))
@@ -92,15 +102,16 @@ def run(ctx):
             tables = [None,
                       {('Foo', 'Fie', 'fum'): {0: 'NULL', 1: 'INTEGER'}},
                       {('Foo', 'Fie', 'fum'): {0: 'INTEGER', 1: 'NULL'}},
-                      {('Foo', 'Fie', 'fum'): {0: 'NULL', 1: 'INTEGER', 2: 'BOOLEAN'}}]
-            ncalls = rng.randint(2, 8)
+                      {('Foo', 'Fie', 'fum'): {0: 'NULL', 1: 'INTEGER', 2: 'BOOLEAN'}},
+                      {('Foo', 'Fie', 'fum'): {0: 'NULL', 1: 'BOOLEAN'}}]
+            ncalls = len(script) if script else rng.randint(2, 8)
             for ci in range(ncalls):
-                choice = rng.random()
+                choice = 0.0 if script else rng.random()
                 adb = None
                 special = None
                 if choice < 0.22:
                     flist, probes = [files['any']], []
-                    adb = rng.choice(tables)
+                    adb = tables[script[ci][0]] if script else rng.choice(tables)
                     special = 'any'
                 elif choice < 0.34:
                     nd = rng.choice([2, 3, 3])
@@ -123,6 +134,8 @@ def run(ctx):
                 if special == 'any':
                     codec = rng.choice(['ber', 'der'])
                 numeric = rng.random() < 0.5
+                if script:
+                    codec, numeric = script[ci][1], script[ci][2]
                 ctx.case((h, ci, tuple(flist), codec, numeric))
                 ctx.count('call.%s.numeric=%s.files=%d' % ('x', numeric, len(flist)))
 
@@ -144,7 +157,7 @@ def run(ctx):
                     if special == 'any':
                         # behaviour that depends on the choice table: decoding a NULL / INTEGER / raw body
                         for sp, ff in ((cached[1], f1), (fresh[1], f2)):
-                            for data in (b'0\x05\x02\x01\x00\x05\x00', b'0\x06\x02\x01\x01\x02\x01\x05', b'0\x06\x02\x01\x00\x02\x01\x05', b'0\x06\x02\x01\x02\x01\x01\xff'):
+                            for data in (b'0\x05\x02\x01\x00\x05\x00', b'0\x06\x02\x01\x01\x02\x01\x05', b'0\x06\x02\x01\x00\x02\x01\x05', b'0\x06\x02\x01\x02\x01\x01\xff', b'0\x06\x02\x01\x01\x01\x01\xff'):
                                 r = impl.decode(sp, 'Fie', data)
                                 ff.append(('Fie', repr(r[:2])))
                     if special == 'dup':
